@@ -124,6 +124,8 @@ def correspond(ctx):
         c.count('result:' + ('ok' if d['ok'] else d['err']))
         for i in p['ins']:
             c.count('instr:' + i[0])
+        for g in p.get('mce', []):
+            c.count('mce-group:%s:%s' % (p['ins'][g[0]][0], 'builds' if d['ok'] else 'fails'))
         fs = _features(p, d)
         for f in fs:
             c.count(f)
